@@ -335,6 +335,9 @@ def build(tree, run, path=(), index=None):
         return build(c[i], run, path + (i + 1,), index)
     if k in ('new', 'same', 'copy', 'fail'):
         s = Leaf(run, k, path)
+    elif k == 'skp':
+        from glom import SKIP
+        s = Val(SKIP)       # a step that answers SKIP
     elif k == 'typ':
         s = int         # a plain type: a Match-mode pattern no target of the universe satisfies
     elif k == 'smiss':
